@@ -295,9 +295,11 @@ def check_c19(idx: Index, tier: str, res: Result) -> None:
     ncons = 0
     for fi in list(idx.all_funcs("BPTK_Py/server/")) + list(idx.all_funcs("BPTK_Py/externalstateadapter/")):
         for c in iter_calls(fi.node):
-            if call_name(c) == "InstanceState" and len(c.args) == 5:
+            bound = dict(zip(FIELDS, c.args)) if call_name(c) == "InstanceState" else {}
+            bound.update({k.arg: k.value for k in c.keywords if k.arg in FIELDS} if call_name(c) == "InstanceState" else {})
+            if call_name(c) == "InstanceState" and len(bound) == 5:
                 ncons += 1
-                for fld, a in zip(FIELDS, c.args):
+                for fld, a in [(f_, bound[f_]) for f_ in FIELDS]:
                     ok = any(h in src(a).lower() for h in FIELD_HINTS[fld])
                     if fld == "time":
                         ok = ok and "timeout" not in src(a).lower()
@@ -467,7 +469,8 @@ def check_c20(idx: Index, tier: str, res: Result) -> None:
                       "prevents the server from starting / loading the others" % fi.qual,
                       key="NULL/%s/load_state()[i].instance_id" % fi.qual)
     res.floor("consumers of load_state()", ncons, 2)
-    ens = idx.func(SERVER, "BptkServer._ensure_instance_exists")
+    from .server import restore_function
+    ens = restore_function(idx)
     # nullability dataflow: the value of load_instance() may be None; every attribute access on it is dominated by a non-None test
     from ..util import implied
     loaded = [n.targets[0].id for n in walk_no_nested(ens.node) if isinstance(n, ast.Assign) and isinstance(n.targets[0], ast.Name)
